@@ -10,3 +10,7 @@ Import ListNotations.
    tags: 0 = PyObject_GetBuffer / contiguity failed, 1 = buffer too small, 2 = item size 0, 3 = no memory for the cdata *)
 Definition gen_frombuf_paths : list (nat * bool * bool) :=
   [(0, false, false); (2, true, true); (1, true, true); (3, true, true)].
+
+(* direct_newp: the error path after a failed initializer conversion releases the freshly made
+   cdata (`if (convert_from_object(...) < 0) { Py_DECREF(cd); return NULL; }`) *)
+Definition gen_newp_fail_decref : bool := true.
